@@ -31,7 +31,9 @@ Kinds == <<
   "x = f'{a}' 'b' \"c\"\n", "import a.b as c, d\n",                                                                       \* 59-60
   \* 61-63: a block whose last line continues with a backslash INSIDE brackets; 64-66: debug fields, a macro before one, a plain continuation
   "if c:\n    x = (1 + \\\n         2)\n", "for i in y:\n    $[echo a \\\n      b]\n", "def f():\n    return [1, \\\n  2]\n",
-  "y = f'{x = }' f'''{z\n =}'''\n", "with! ctx2:\n    q\nv = f'{u = }'\n", "x = 1 if a else \\\n    2\n"
+  "y = f'{x = }' f'''{z\n =}'''\n", "with! ctx2:\n    q\nv = f'{u = }'\n", "x = 1 if a else \\\n    2\n",
+  \* 67: comments and a blank line (after a with-block: left of it); 68-71: raw and non-raw f-strings with the same quotes, \N escapes
+  "# one\n\n# two\n", "pat = rf\"\\d{n}\"\n", "item = f\"\\N{BULLET} {t}\"\n", "r2 = Rf'\\N{x}'\n", "n2 = f'\\N{DIGIT ONE}{u}'\n"
 >>
 VARIABLE seq
 Init == seq = <<>>
